@@ -68,6 +68,13 @@ CLAIMED = {
    text="For every type of the TLC-enumerated universe and boundary-biased valid values, the real marshal -> unmarshal -> marshal chain is recorded; TLC confirms Exact(T, v), then requires the projected result term to equal the projected input (runtime class at every position, UTC offset, microseconds) unless a union inside T is ambiguous, and requires the second wire form to equal the first (modulo element order under set types) always. Scalars are visited twice in opposite orders with warm value memos.",
    ref="DESIGN.md section 4 C01",
    note="Trusted: TLC; term projection; union ambiguity is decided with the real member routines over the member pools (it only selects which law applies, and is broader than the statement: marshal-side take-over counts too). Values come from finite pools."),
+ "C06": dict(
+   engine="Wire",
+   technique="TLA+ specs Terms.tla + Wire.tla (IsWire with exact builtin classes); TLC-enumerated universe x pool values and their subclass-instance variants through the real marshallers, TLC trace spec Wire_Trace.tla checks IsWire plus logged json/determinism/aliasing/intactness facts",
+   level="model_checking",
+   text="For every type of the TLC-enumerated universe, pool values and variants rebuilt from subclass instances (int/str/list subclasses, OrderedDict, pendulum temporals) are marshalled three times (twice in a row and once after all other values of the type); TLC evaluates IsWire on the projected output (exact NoneType/bool/int/float/str/list/dict at every position, primitive keys) and asserts the harness-measured facts: accepted by json.dumps, identical on every call, no mutable container shared with the input, input unchanged; Literal non-members must raise ValueError.",
+   ref="DESIGN.md section 4 C06",
+   note="Trusted: TLC; term projection with exact class names; aliasing (id walks) and json.dumps verdict are measured in Python and only asserted by the trace spec."),
 }
 NOT_BUILT = "check not built yet (build in progress; see DESIGN.md section 7 build order)"
 
